@@ -71,9 +71,9 @@ class WFQ(Scheduler):
             self.reset_vtime()
         else:
             self.update_vtime()
-            self.finish_times[class_id] = max(
-                self.finish_times[class_id], self.vtime
-            ) + packet.size * 8.0 / (self.rate * self.weights[class_id])
+        self.finish_times[class_id] = max(
+            self.finish_times[class_id], self.vtime
+        ) + packet.size * 8.0 / (self.rate * self.weights[class_id])
 
         self.add_packet_to_queue(packet)
         self.active_set.add(class_id)
